@@ -5,8 +5,9 @@ import "verif/mc/fw"
 // router clause of C14: explored on the cache-state graph of c07.go.
 
 type c14RouterCfg struct {
-	Cfg cgConfig `json:"config"`
-	Ext bool     `json:"extended_alphabet"`
+	Cfg  cgConfig `json:"config"`
+	Ext  bool     `json:"extended_alphabet"`
+	Full int      `json:"unmerged_depth"`
 }
 
 func c14GenRouter(tier string, emit func(c14Case)) {
@@ -14,10 +15,10 @@ func c14GenRouter(tier string, emit func(c14Case)) {
 		if c.Cap == 0 {
 			return
 		}
-		emit(c14Case{Kind: "router", Router: &c14RouterCfg{Cfg: c, Ext: ext}})
+		emit(c14Case{Kind: "router", Router: &c14RouterCfg{Cfg: c, Ext: ext, Full: cgFullDepth(tier)}})
 	})
 }
 
 func c14RunRouter(c c14Case, st *fw.Stats) []fw.Viol {
-	return cacheGraphRun(c.Router.Cfg, cgReqs(c.Router.Ext), "C14", st)
+	return cacheGraphRun(c.Router.Cfg, cgReqs(c.Router.Ext), "C14", c.Router.Full, st)
 }
